@@ -3,7 +3,7 @@ from ..oracles import c20
 
 MODELS = ["Setup", "SetupKeys"]
 STREAMS = [setup_checks.stream_generate_mesh, setup_checks.stream_group_setup]
-ORACLES = [c20.oracle_runtime, c20.oracle_rejections]
+ORACLES = [c20.oracle_runtime, c20.oracle_rejections, c20.oracle_multisection_user_meshes]
 UNPROVED = ["absence of hidden global state, of NaN / inf outside the sampled configurations and of in-place edits of user data are runtime truths: monitored on every run (five topologies: repeat on the same Problem, independent Problem, interleaved with an unrelated Problem; digests of every array of the user's dictionaries before / after set-up, run and compute_totals), not proved",
             "that the decision logic in the code is the modelled one is tied by the enumeration (245 variants), not by translation; the three key lists the theorems quantify over ARE regenerated from the source"]
 ASSUMPTIONS = ["observations recorded in DESIGN.md (not violations): AerostructGeometry emits every unknown-key warning twice; AerostructPoint with an unknown fem_model_type and a tube-style dictionary fails with KeyError('data_y_upper') before reaching its NameError; ground effect combined with compressible=True fails at setup with OpenMDAO's RuntimeError (height_agl not promoted)"]
